@@ -121,7 +121,7 @@ theorem pcGeneratePrimes_correct (e : Env) (he : GenSpec e) (vmax mx : ℕ) (hv 
 
 /-- … in the index form of `pi[x]`-free callers: the entry `i` is `p i` for `1 ≤ i ≤ π(max)`, and the length is `π(max) + 1` -/
 theorem pcGeneratePrimes_index (e : Env) (he : GenSpec e) (vmax mx : ℕ) (hv : mx ≤ vmax) (hu : mx ≤ umax) :
-    pcGeneratePrimes e vmax mx = .ok (0 :: firstPrimes (Nat.primeCounting mx)) := by
+    pcGeneratePrimes e vmax mx = .ok (0 :: firstNPrimes (Nat.primeCounting mx)) := by
   obtain ⟨l, h, hP⟩ := pcGeneratePrimes_correct e he vmax mx hv hu
   rw [h]
   congr 2
@@ -133,7 +133,7 @@ theorem pcGeneratePrimes_index (e : Env) (he : GenSpec e) (vmax mx : ℕ) (hv : 
     have := Spec.pi_mono hle
     have := Spec.one_le_pi_of_prime hq
     omega
-  · have hF := firstPrimes_primesIn (Nat.primeCounting mx) (by omega)
+  · have hF := firstNPrimes_primesIn (Nat.primeCounting mx) (by omega)
     have hle : Spec.p (Nat.primeCounting mx) ≤ mx := Spec.p_pi_le (by omega)
     -- both lists are the primes of `[0, mx]`: nothing between `p (π mx)` and `mx`
     refine hP.unique ⟨hF.1, fun q => ?_⟩
